@@ -10,5 +10,5 @@ CONSTANTS
   FreeHi = 9
   MaxEraChanges = 9
   Bug = "none"
-INVARIANTS WalkRule DiagnosisAgrees Bounds OrderIso DoyCounts YearTotals MonthTotals RebuildKeysInjective EraAffine RebuildIdentity WithCalendarKeepsDay ToyRebuildUnique
+INVARIANTS WalkRule StepExclusive DiagnosisAgrees Bounds OrderIso DoyCounts YearTotals MonthTotals RebuildKeysInjective EraAffine RebuildIdentity WithCalendarKeepsDay ToyRebuildUnique
 CHECK_DEADLOCK FALSE
